@@ -562,6 +562,124 @@ fn select_level(run: &mut Run, rng: &mut Rng, n: usize) {
     }
 }
 
+// ---------------------------------------------------------------------------------------------
+// local time zones (child processes: chrono's local zone is fixed per process). `date_trunc('year'|'month'|'day', ts)`
+// must give the START of that period of ts IN LOCAL TIME: an instant not after ts whose local civil fields are the
+// period's first moment (same year / month / day as ts, the rest at its minimum). Where that local time does not exist
+// (DST gap at midnight) an error is the documented answer. Judged from the result's own local fields — not by
+// re-computing what chrono computes.
+// ---------------------------------------------------------------------------------------------
+
+pub fn tz_child(seed: u64, n: usize) {
+    use chrono::{Datelike, Local, TimeZone, Timelike};
+    use chrono::NaiveDate;
+    let mut rng = Rng::new(seed ^ 0x037a);
+    let mut checks = 0usize;
+    // the local clock times that do not exist (DST gaps) in 2015..2026, at quarter-hour resolution
+    let mut gaps: Vec<chrono::NaiveDateTime> = Vec::new();
+    let mut day = NaiveDate::from_ymd_opt(2015, 1, 1).unwrap();
+    while day.year() < 2026 {
+        for q in 0..96u32 {
+            let t = day.and_hms_opt(q / 4, (q % 4) * 15, 7).unwrap();
+            if let chrono::LocalResult::None = Local.from_local_datetime(&t) { gaps.push(t); }
+        }
+        day = day.succ_opt().unwrap();
+    }
+    for i in 0..n {
+        // instants spread over several years, denser around the usual switch-over months; every other case is aimed at a
+        // gap: the same clock time on another day of that month, or another hour of that day with the gap's minutes
+        let ts = if i % 2 == 1 && !gaps.is_empty() {
+            let g = *rng.pick(&gaps);
+            let cand = if rng.chance(1, 2) {
+                NaiveDate::from_ymd_opt(g.year(), g.month(), 1 + rng.below(28) as u32).map(|d| d.and_time(g.time()))
+            } else {
+                g.date().and_hms_opt(rng.below(24) as u32, g.minute(), g.second())
+            };
+            match cand.and_then(|c| Local.from_local_datetime(&c).single()) { Some(t) => t, None => continue }
+        } else {
+            let base = 1_500_000_000i64 + rng.range(0, 250_000_000);
+            let secs = if rng.chance(1, 3) { base - base % 86_400 + rng.range(-7_200, 7_200) } else { base };
+            match Local.timestamp_opt(secs, (rng.below(3) as u32) * 500_000_000 % 1_000_000_000).single() { Some(t) => t, None => continue }
+        };
+        let secs = ts.timestamp();
+        let part = *rng.pick(&["year", "month", "day"]);
+        let e = call(Function::TruncateTimestamp, vec![ExpressionTree::Value(Value::String(part.to_owned())), ExpressionTree::Value(Value::Timestamp(ts))]);
+        checks += 1;
+        let desc = format!("date_trunc('{}', {}) [epoch {}]", part, ts, secs);
+        match eval_real(&[], &e) {
+            Ev::Ok(Value::Timestamp(r)) => {
+                let first = r.hour() == 0 && r.minute() == 0 && r.second() == 0 && r.nanosecond() == 0
+                    && r.year() == ts.year()
+                    && match part { "year" => r.month() == 1 && r.day() == 1, "month" => r.month() == ts.month() && r.day() == 1, _ => r.month() == ts.month() && r.day() == ts.day() };
+                if !first || r > ts {
+                    println!("FAIL date-trunc-not-local-period-start :: {} gave {} which is not the first moment of that local {}", desc, r, part);
+                }
+            }
+            Ev::Ok(v) => println!("FAIL date-trunc-not-a-timestamp :: {} gave {}", desc, v),
+            Ev::Err(_) => {
+                // only when the local start of the period does not exist
+                let (y, m, d) = match part { "year" => (ts.year(), 1, 1), "month" => (ts.year(), ts.month(), 1), _ => (ts.year(), ts.month(), ts.day()) };
+                if Local.with_ymd_and_hms(y, m, d, 0, 0, 0).single().is_some() {
+                    println!("FAIL date-trunc-error-although-start-exists :: {}", desc);
+                }
+            }
+            Ev::Panic(m) => println!("FAIL panic:date-trunc :: {} panicked: {}", desc, m.replace('\n', " ")),
+        }
+        // hour / minute / second: the start of that local hour / minute / second — not after ts, less than one span
+        // before it, same local date and hour, the smaller local fields zero (zones with :30 / :45 offsets tell local from
+        // UTC truncation apart). An error is accepted only at a DST switch (the local target is ambiguous or missing).
+        let (part2, span) = *rng.pick(&[("hour", 3600i64), ("minute", 60), ("second", 1)]);
+        let e2 = call(Function::TruncateTimestamp, vec![ExpressionTree::Value(Value::String(part2.to_owned())), ExpressionTree::Value(Value::Timestamp(ts))]);
+        checks += 1;
+        let desc2 = format!("date_trunc('{}', {}) [epoch {}]", part2, ts, secs);
+        match eval_real(&[], &e2) {
+            Ev::Ok(Value::Timestamp(r)) => {
+                let fields = r.nanosecond() == 0 && r.date_naive() == ts.date_naive() && r.hour() == ts.hour()
+                    && match part2 { "hour" => r.minute() == 0 && r.second() == 0, "minute" => r.minute() == ts.minute() && r.second() == 0, _ => r.minute() == ts.minute() && r.second() == ts.second() };
+                let near = r <= ts && (ts.timestamp() - r.timestamp()) <= span;
+                // at a switch the same local hour may occur twice; only the field check is demanded there
+                if !fields || !near {
+                    let switch = Local.from_local_datetime(&r.naive_local()).single().is_none() || (ts.offset() != r.offset());
+                    if !switch { println!("FAIL date-trunc-not-local-{}-start :: {} gave {}", part2, desc2, r); }
+                }
+            }
+            Ev::Ok(v) => println!("FAIL date-trunc-not-a-timestamp :: {} gave {}", desc2, v),
+            Ev::Err(_) => {
+                let target = ts.naive_local().with_nanosecond(0).and_then(|t| if part2 == "second" { Some(t) } else { t.with_second(0) }).and_then(|t| if part2 == "hour" { t.with_minute(0) } else { Some(t) });
+                let plain = target.map(|t| Local.from_local_datetime(&t).single().is_some()).unwrap_or(false);
+                if plain { println!("FAIL date-trunc-error-although-start-exists :: {}", desc2); }
+            }
+            Ev::Panic(m) => println!("FAIL panic:date-trunc :: {} panicked: {}", desc2, m.replace('\n', " ")),
+        }
+    }
+    println!("CHECKS {}", checks);
+}
+
+fn tz_stream(run: &mut Run, p: &Params) {
+    let zones: &[&str] = if p.tier_thorough { &["CET-1CEST,M3.5.0,M10.5.0/3", "America/Sao_Paulo", "Europe/London", "Australia/Lord_Howe", "America/St_Johns", "Asia/Kathmandu"] } else { &["CET-1CEST,M3.5.0,M10.5.0/3", "America/Sao_Paulo"] };
+    let exe = match std::env::current_exe() { Ok(e) => e, Err(_) => return };
+    for zone in zones {
+        let out = std::process::Command::new(&exe).env("TZ", zone).arg("c03tz").arg(p.seed.to_string()).arg(p.n(400, 20_000).to_string()).output();
+        match out {
+            Ok(o) => {
+                let text = String::from_utf8_lossy(&o.stdout).to_string();
+                for l in text.lines() {
+                    if let Some(rest) = l.strip_prefix("FAIL ") {
+                        let mut it = rest.splitn(2, " :: ");
+                        let class = it.next().unwrap_or("tz").to_owned();
+                        run.fail(format!("TZ={} {}", zone, it.next().unwrap_or("")), &class, "under this local time zone".to_owned());
+                    }
+                    if let Some(c) = l.strip_prefix("CHECKS ") { run.oracle_checks += c.trim().parse().unwrap_or(0); }
+                }
+                run.count(&format!("tz:{}", zone));
+                if !o.status.success() { run.fail(format!("TZ={}", zone), "panic:tz-child-died", format!("child exit {:?}", o.status)); }
+            }
+            Err(e) => run.notes.push(format!("could not start TZ child: {}", e)),
+        }
+    }
+    run.notes.push("local time zones: date_trunc to year / month / day judged by the local civil fields of its result in child processes with DST zones".to_owned());
+}
+
 pub fn run(p: &Params) -> Run {
     let mut run = Run::new("C03");
     let mut rng = Rng::new(p.seed ^ 0x03);
@@ -599,6 +717,7 @@ pub fn run(p: &Params) -> Run {
     boundary_cases(&mut run, &env, p.tier_thorough);
     let n_stmt = p.n(1200, 40_000);
     select_level(&mut run, &mut rng, n_stmt);
+    tz_stream(&mut run, p);
     run.notes.push("statement level: SELECT lists mixing columns, qualified columns, expressions, `input`, `*`, aliases (also clashing ones) with WHERE; names checked against alias|column|p<i>; whole-run output = concatenation of the per-line outputs; three-way with Spec.Select".to_owned());
     run.notes.push("expression level: type-directed generator (≈ 80% well-typed, 20% with ill-typed sub-terms) + operator × type × type table".to_owned());
     // the end-to-end stream: the same property seen from raw texts and raw file bytes (`e2e.rs`, Lean `Pipeline.runText`)
@@ -608,6 +727,56 @@ pub fn run(p: &Params) -> Run {
 
 /// exhaustive boundary tables: INT x INT arithmetic (overflow, MIN / -1, zero divisors) and INT x REAL comparisons
 /// (values around 2^53 and 2^63 where rounding the INT would change the answer)
+/// `array_unique` over arrays with many equal-but-not-identical and identical elements (NaN twice and with different
+/// payloads, -0.0 / 0.0, infinities, i64 extremes, NULL elements, nested arrays): correspondence with the model's
+/// `uniqueValues`, and on the implementation the meaning of "unique" itself — no two elements of the result are equal,
+/// every element of the input is equal to one of the result and vice versa, and the result is the same for every order
+/// of the input (C16: one total order consistent with equality, also for NaN)
+pub fn array_unique_cases(run: &mut Run, rng: &mut Rng, n: usize) {
+    let nan_bits: &[u64] = &[0x7ff8000000000000, 0xfff8000000000000, 0x7ff0000000000001, 0x7fffffffffffffff];
+    for _ in 0..n {
+        let (t, pool): (ValueType, Vec<Value>) = match rng.below(6) {
+            0 | 1 | 2 => {
+                let mut pool: Vec<Value> = Vec::new();
+                for _ in 0..1 + rng.below(4) { pool.push(Value::Float(Float(f64::from_bits(*rng.pick(nan_bits))))); }
+                for b in &[0x0000000000000000u64, 0x8000000000000000, 0x7ff0000000000000, 0xfff0000000000000, 0x3ff8000000000000, 0x3ff8000000000000] { if rng.chance(1, 2) { pool.push(Value::Float(Float(f64::from_bits(*b)))); } }
+                for _ in 0..rng.below(3) { pool.push(Value::Float(Float(f64::from_bits(gen_f64_bits(rng))))); }
+                (ValueType::Float, pool)
+            }
+            3 => (ValueType::Int, (0..2 + rng.below(5)).map(|_| Value::Int(*rng.pick(&[0i64, 1, 1, -1, i64::MAX, i64::MIN, 7]))).collect()),
+            4 => (ValueType::String, (0..2 + rng.below(5)).map(|_| Value::String((*rng.pick(&["a", "a", "b", "", "é", "A"])).to_owned())).collect()),
+            _ => { let t = gen_scalar_type(rng); let pool = (0..2 + rng.below(5)).map(|_| gen_value_of(rng, &t, 0)).collect(); (t, pool) }
+        };
+        let mut xs: Vec<Value> = (0..rng.below(9)).map(|_| rng.pick(&pool).clone()).collect();
+        if rng.chance(1, 4) && !xs.is_empty() { let k = rng.below(xs.len() + 1); xs.insert(k, Value::Null); }
+        let arr = Value::Array(t.clone(), xs.clone());
+        let e = call(Function::ArrayUnique, vec![lit(arr.clone())]);
+        check_expr(run, &[], &e, "unique:");
+        run.oracle_checks += 1;
+        let desc = format!("array_unique({})", arr);
+        match eval_real(&[], &e) {
+            Ev::Ok(Value::Array(_, ys)) => {
+                let dup = (0..ys.len()).any(|i| (0..i).any(|j| ys[i] == ys[j]));
+                let covers = xs.iter().all(|x| ys.iter().any(|y| y == x)) && ys.iter().all(|y| xs.iter().any(|x| y == x));
+                if dup || !covers {
+                    run.fail(desc, if dup { "array-unique-keeps-equal-elements" } else { "array-unique-loses-or-invents-elements" }, format!("result {}", Value::Array(t.clone(), ys.clone())));
+                    continue;
+                }
+                // order of the input is irrelevant
+                let mut rev = xs.clone(); rev.reverse();
+                if let Ev::Ok(Value::Array(_, zs)) = eval_real(&[], &call(Function::ArrayUnique, vec![lit(Value::Array(t.clone(), rev))])) {
+                    if zs.len() != ys.len() || !zs.iter().zip(ys.iter()).all(|(a, b)| a == b) {
+                        run.fail(desc, "array-unique-depends-on-input-order", format!("{} vs reversed input {}", Value::Array(t.clone(), ys.clone()), Value::Array(t.clone(), zs.clone())));
+                    }
+                }
+            }
+            Ev::Ok(v) => run.fail(desc, "array-unique-not-an-array", format!("gave {}", v)),
+            Ev::Err(_) => {}
+            Ev::Panic(m) => run.fail(desc, "panic:array-unique", m),
+        }
+    }
+}
+
 pub fn boundary_cases(run: &mut Run, env: &[(String, Value)], thorough: bool) {
     for x in INT_EDGES {
         for y in INT_EDGES {
